@@ -111,7 +111,53 @@ def range_guard(fn, ev, G):
     return None
 
 
-def run(tier='quick', repo=None):
+
+# ---- R-model (rules/c03model.py) in parallel over the segmentations ------------------------------------
+
+_G = {}
+
+
+def _model_job(job):
+    from rules import c03model
+    repo, tier, idx = job
+    if _G.get('repo') != repo:
+        _G['prog'] = facts.load_program([], repo=repo)
+        _G['repo'] = repo
+    sub = Report('tmp', tier)
+    c03model.check_model(sub, _G['prog'], tier, only={idx})
+    return [(o.instance, o.status, o.loc, o.detail) for o in sub.obs], sub.rules.get('R-model'), sub.tables.get('R-model')
+
+
+def check_model_parallel(rep, repo, tier):
+    import multiprocessing
+    import os
+    from rules import c03model
+    _G['prog'] = facts.load_program([], repo=repo)
+    _G['repo'] = repo
+    N = 5 if tier == 'quick' else 6
+    n = len(list(c03model.comps(N)))
+    with multiprocessing.Pool(min(16, os.cpu_count() or 4)) as pool:
+        out = pool.map(_model_job, [(repo, tier, i) for i in range(n)], chunksize=1)
+    tot = {'operations_checked': 0, 'interpreted_calls': 0}
+    seen = set()
+    for obs, rule, tab in out:
+        if rule:
+            rep.rule('R-model', rule)
+        for k in tot:
+            tot[k] += (tab or {}).get(k, 0)
+        for inst, status, loc, detail in obs:
+            if status == VIOLATED:
+                key = (inst.split(':')[0], str(detail.get('what', '')).split(' is ')[0].split(' returns ')[0][:50])
+                if key in seen:
+                    continue
+                seen.add(key)
+            rep.add('R-model', inst, status, loc, **detail)
+    rep.tables['R-model'] = dict(tot, block_size=N, segmentations=n)
+    if tot['operations_checked'] < 5000:
+        raise facts.AnalysisBroken('R-model checked only %d operations' % tot['operations_checked'])
+
+
+def run(tier='quick', repo=None, model=True):
     repo = repo or facts.REPO
     rep = Report(PROP, tier)
     rep.explanation = (
@@ -260,5 +306,7 @@ def run(tier='quick', repo=None):
                     what='%s unlinks / frees the segments after a block (line %s) and can return success without rewriting cached_end_ubuf: a later append would link into the released chain' % (name, bad[2].get('l')))
         else:
             rep.add('R-cache-end', name, HOLDS, fn.loc, unlink_sites=len(us))
+    if model:
+        check_model_parallel(rep, repo, tier)
     rep.assumptions = ['the chain fields are only written by the functions of ubuf_block.h / ubuf_block_common.h and the block manager (checked by C02 R-cow-who for buffers; not re-checked here)']
     return rep
